@@ -2,6 +2,7 @@
 package rt
 
 import (
+	"strings"
 	"context"
 	"fmt"
 	"os"
@@ -598,7 +599,11 @@ type TombstoneExpiryResult struct {
 	Incon     string   `json:"inconclusive,omitempty"`
 }
 
-var TombstoneVariants = []string{"Update-delete", "WriteCas-nil", "Update-delete-relative"}
+var TombstoneVariants = []string{"Update-delete", "WriteCas-nil", "Update-delete-relative",
+	// the document itself carries the near expiry and is deleted through an entry point without an expiry argument
+	"Delete-of-expiring", "Remove-of-expiring", "DeleteWithXattrs-of-expiring", "WriteTombstoneWithXattrs-of-expiring", "Update-delete-of-expiring",
+	// ... or through an entry point that creates a tombstone and takes an expiry argument of its own
+	"WriteTombstoneWithXattrs-exp-arg", "UpdateXattrDeleteBody-exp-arg", "DeleteWithMeta-exp-arg"}
 
 func RunTombstoneExpiry(tmp string, disk bool, variant string) (res TombstoneExpiryResult) {
 	res.Disk, res.Variant = disk, variant
@@ -633,12 +638,47 @@ func RunTombstoneExpiry(tmp string, disk bool, variant string) (res TombstoneExp
 		}
 		return true
 	}, nil)
-	if _, err = c.WriteWithXattrs(ctx, "k", 0, 0, []byte(`{"v":1}`), map[string][]byte{"_sync": []byte(`{"s":1}`)}, nil, nil); err != nil {
+	exp := uint32(time.Now().Unix()) + 2
+	setupExp := uint32(0)
+	if strings.HasSuffix(variant, "-of-expiring") {
+		setupExp = exp
+	}
+	if _, err = c.WriteWithXattrs(ctx, "k", setupExp, 0, []byte(`{"v":1}`), map[string][]byte{"_sync": []byte(`{"s":1}`), "u1": []byte(`{"u":1}`)}, nil, nil); err != nil {
 		res.Incon = "set-up: " + err.Error()
 		return
 	}
-	exp := uint32(time.Now().Unix()) + 2
 	switch variant {
+	case "Delete-of-expiring":
+		err = c.Delete("k")
+	case "Remove-of-expiring":
+		var cas uint64
+		if _, cas, err = c.GetRaw("k"); err == nil {
+			_, err = c.Remove("k", cas)
+		}
+	case "DeleteWithXattrs-of-expiring":
+		err = c.DeleteWithXattrs(ctx, "k", []string{"u1"})
+	case "WriteTombstoneWithXattrs-of-expiring":
+		var cas uint64
+		if _, cas, err = c.GetRaw("k"); err == nil {
+			_, err = c.WriteTombstoneWithXattrs(ctx, "k", 0, cas, map[string][]byte{"_sync": []byte(`{"s":2}`)}, nil, true, nil)
+		}
+	case "Update-delete-of-expiring":
+		_, err = c.Update("k", 0, func(cur []byte) ([]byte, *uint32, bool, error) { return nil, nil, true, nil })
+	case "WriteTombstoneWithXattrs-exp-arg":
+		var cas uint64
+		if _, cas, err = c.GetRaw("k"); err == nil {
+			_, err = c.WriteTombstoneWithXattrs(ctx, "k", exp, cas, map[string][]byte{"_sync": []byte(`{"s":2}`)}, nil, true, nil)
+		}
+	case "UpdateXattrDeleteBody-exp-arg":
+		var cas uint64
+		if _, cas, err = c.GetRaw("k"); err == nil {
+			_, err = c.UpdateXattrDeleteBody(ctx, "k", "_sync", exp, cas, map[string]any{"s": 3}, nil)
+		}
+	case "DeleteWithMeta-exp-arg":
+		var cas uint64
+		if _, cas, err = c.GetRaw("k"); err == nil {
+			err = c.DeleteWithMeta(ctx, "k", cas, cas+0x10000, exp, []byte(`{"_sync":{"s":4}}`))
+		}
 	case "Update-delete":
 		_, err = c.Update("k", exp, func(cur []byte) ([]byte, *uint32, bool, error) { return nil, nil, true, nil })
 	case "Update-delete-relative":
@@ -660,7 +700,7 @@ func RunTombstoneExpiry(tmp string, disk bool, variant string) (res TombstoneExp
 	res.Deletions = len(dels)
 	mu.Unlock()
 	if res.Deletions > 1 {
-		res.Problems = append(res.Problems, fmt.Sprintf("spurious-deletion|%s deleted the document (expiry argument %d); at that time the tombstone was deleted again by the expiry timer: %d deletion events reached the feed for one deletion", variant, exp, res.Deletions))
+		res.Problems = append(res.Problems, fmt.Sprintf("spurious-deletion|%s deleted the document (expiry %d, carried by the call or by the document); at that time the tombstone was deleted again by the expiry timer: %d deletion events reached the feed for one deletion", variant, exp, res.Deletions))
 	}
 	if casBefore != 0 && casAfter != casBefore {
 		res.Problems = append(res.Problems, fmt.Sprintf("tombstone-cas-changed|%s deleted the document; without any client activity the tombstone's CAS changed from %d to %d when the deleted document's expiry argument came due", variant, casBefore, casAfter))
